@@ -17,8 +17,10 @@
 static void enc_dec_segments_dctor(EbPtr p) {
     EncDecSegments *obj = (EncDecSegments *)p;
     uint32_t        row_index;
-    for (row_index = 0; row_index < obj->segment_max_row_count; ++row_index) {
-        EB_DESTROY_MUTEX(obj->row_array[row_index].assignment_mutex);
+    if (obj->row_array) {
+        for (row_index = 0; row_index < obj->segment_max_row_count; ++row_index) {
+            EB_DESTROY_MUTEX(obj->row_array[row_index].assignment_mutex);
+        }
     }
     EB_DESTROY_MUTEX(obj->dep_map.update_mutex);
     EB_FREE_ARRAY(obj->x_start_array);
